@@ -250,6 +250,29 @@ mutual
       mergeKvs f d' rest
 end
 
+def ratZeroOverwrite (a b : Option Rat) : Bool :=
+  match a, b with | some x, some y => x = 0 ∧ y ≠ 0 | _, _ => false
+
+mutual
+  /-- does merging `s` into `d` overwrite, in place, a `*float64` that points at 0?  (mergo treats the zero
+      pointee as empty; the overwritten cell is shared with the branch it came from, whose validators are
+      emitted later and then print the other branch's bound) -/
+  def zeroOverwrite : Nat → Schema → Schema → Bool
+    | 0, _, _ => false
+    | f + 1, d, s =>
+      let x := d.node; let y := s.node
+      ratZeroOverwrite x.minimum y.minimum || ratZeroOverwrite x.maximum y.maximum ||
+      ratZeroOverwrite x.multipleOf y.multipleOf ||
+      (match x.items, y.items with | some a, some b => zeroOverwrite f a b | _, _ => false) ||
+      (match x.addl, y.addl with | some a, some b => zeroOverwrite f a b | _, _ => false) ||
+      zeroOverwriteKvs f x.props y.props
+  def zeroOverwriteKvs : Nat → List (String × Schema) → List (String × Schema) → Bool
+    | 0, _, _ => false
+    | _ + 1, _, [] => false
+    | f + 1, d, (k, v) :: rest =>
+      (match alookup k d with | some old => zeroOverwrite f old v | none => false) || zeroOverwriteKvs f d rest
+end
+
 def isPrimitiveTypeList (bs : List Schema) : Bool :=
   bs.all fun b => match b.node.types with | [] => true | t :: _ => isPrimitiveTypeName t
 
@@ -258,8 +281,9 @@ def mergeTypes (bs : List Schema) : Except GenErr Schema :=
   if bs.isEmpty then .error .mergeEmpty
   else if isPrimitiveTypeList bs then .ok (.mk {})
   else
-    let r := bs.foldl (fun acc b => mergeNode 64 acc b) (.mk {})
-    .ok (.mk { r.node with subElem := false, anyOfCount := 0, isAllOf := false })
+    let (r, ow) := bs.foldl (fun (acc : Schema × Bool) b => (mergeNode 64 acc.1 b, acc.2 || zeroOverwrite 64 acc.1 b)) (.mk {}, false)
+    if ow then .error (.unsupported "mergo-overwrites-zero-bound")
+    else .ok (.mk { r.node with subElem := false, anyOfCount := 0, isAllOf := false })
 
 /-! ### small pure pieces -/
 
